@@ -622,6 +622,34 @@ func (g *G) action(depth int) (of.Action, string) {
 	}
 }
 
+// deepCT: conntrack actions nested `depth` deep around one leaf action; outerFirst attaches every
+// level to its parent before it has received its own child (the encoding must not depend on it)
+func (g *G) deepCT(depth int, outerFirst bool) (of.Action, string) {
+	leaf, lt := g.action(0)
+	cts := make([]*of.NXActionConnTrack, depth)
+	for i := range cts {
+		cts[i] = of.NewNXActionConnTrack()
+	}
+	if outerFirst {
+		for i := 0; i+1 < depth; i++ {
+			cts[i].AddAction(cts[i+1])
+		}
+		cts[depth-1].AddAction(leaf)
+	} else {
+		cts[depth-1].AddAction(leaf)
+		for i := depth - 2; i >= 0; i-- {
+			cts[i].AddAction(cts[i+1])
+		}
+	}
+	g.flushLate()
+	t := lt
+	for i := 0; i < depth; i++ {
+		t = "(ACT [] 0 [" + t + "])"
+	}
+	g.use("act:nx-ct-deep")
+	return cts[0], t
+}
+
 func (g *G) actions(mean, cap, depth int) ([]of.Action, []string) {
 	n := g.r.Geom(mean, cap)
 	as := make([]of.Action, n)
